@@ -252,3 +252,120 @@ def c16_wasserstein_reuse(ctx, method, ls):
     ctx.ensure("distance of the re-used object == distance of a fresh object", abs(d_used - d_fresh) <= 1e-9 * max(1.0, abs(d_fresh)))
     ctx.ensure("flux of the re-used object == flux of a fresh object", bool(np.allclose(i_used["flux"], i_fresh["flux"], rtol=1e-8, atol=1e-10)))
     ctx.ensure("pressure of the re-used object == pressure of a fresh object", bool(np.allclose(i_used["pressure"], i_fresh["pressure"], rtol=1e-7, atol=1e-9)))
+
+
+# ---- relational proofs over the real Wasserstein iterations and the real Anderson accelerator (machinery of C04.step) ---------------------
+
+from .C04_wasserstein import STEP_STUBS, _abstract_mobility_and_cost  # noqa: E402
+
+
+def _configuration(obj):
+    """scalar configuration attributes of a solver object (numbers, strings, flags, enums, None) - caches and arrays are not configuration"""
+    import enum
+    from vf.sym import is_sym
+    out = {}
+    for k, v in vars(obj).items():
+        if isinstance(v, (bool, int, float, str, type(None), enum.Enum, np.integer, np.floating)) or is_sym(v):
+            out[k] = v
+    return out
+
+
+def _same_value(a, b):
+    from vf.sym import is_sym
+    if is_sym(a) or is_sym(b) or (isinstance(a, (int, float, np.integer, np.floating)) and not isinstance(a, bool) and isinstance(b, (int, float, np.integer, np.floating)) and not isinstance(b, bool)):
+        return eq(a, b)
+    return type(a) is type(b) and a == b
+
+
+def _reuse_cases(tier):
+    out = []
+    for method in ("newton", "bregman"):
+        for form in ("full", "pressure"):
+            out.append(dict(shape=(2, 2), method=method, form=form, variant="plain"))
+        out.append(dict(shape=(2, 2), method=method, form="pressure", variant="anderson"))
+    out.append(dict(shape=(2, 2), method="bregman", form="pressure", variant="adaptive"))
+    out.append(dict(shape=(2, 2), method="bregman", form="full", variant="adaptive-homogeneous"))
+    out.append(dict(shape=(3,), method="bregman", form="pressure", variant="adaptive-homogeneous"))
+    out.append(dict(shape=(3,), method="newton", form="full", variant="anderson"))
+    if tier != "quick":
+        for s in ((3, 2), (2, 1, 2)):
+            for method in ("newton", "bregman"):
+                out.append(dict(shape=s, method=method, form="pressure", variant="plain"))
+    return out
+
+
+@ob("C16.wasserstein_reuse_sym", cases=_reuse_cases, mods=["darsia.measure.wasserstein", "darsia.utils.fv", "darsia.utils.andersonacceleration"], stubs=STEP_STUBS,
+    funcs=["darsia.measure.wasserstein:WassersteinDistanceNewton._solve", "darsia.measure.wasserstein:WassersteinDistanceBregman._solve",
+           "darsia.measure.wasserstein:WassersteinDistanceBregman._update_regularization", "darsia.measure.wasserstein:VariationalWassersteinDistance.linear_solve",
+           "darsia.utils.andersonacceleration:AndersonAcceleration.__call__"],
+    samples=(1, 2), budget={"timeout_ms": 30000, "paths": 64, "decide_ms": 1500, "arith_solver": 2, "wall_s": 400}, tol=1e-6,
+    assumes=["splu / lstsq / mobility / cost are FUNCTIONS of their arguments (same argument terms => same result symbols); otherwise arbitrary",
+             "sparse-matrix model vf/symsparse.py (validated by C08.dep_sparse)"],
+    cite="a Wasserstein distance computed with a re-used solver object depends only on the arguments of that call ... not on earlier calls made ... with the same object",
+    note="relational, on the real _solve: an object that has solved one (symbolic) pair and is re-used on a second pair returns, entry for entry, the solution, distance and flags of a "
+         "fresh object on the second pair - for all data; the factorisation, mobility, cost and least-squares solve are uninterpreted functions of their arguments (after seed C16_f: "
+         "a penalty parameter adapted in one call and kept for the next)")
+def c16_wasserstein_reuse_sym(ctx, shape, method, form, variant):
+    import warnings
+    from contracts.wass_common import base_options, grid_of, solver
+    grid, h = grid_of(shape)
+    extra = {}
+    if variant == "anderson":
+        extra.update(aa_depth=2)
+    if variant.startswith("adaptive"):
+        extra["bregman_update"] = lambda it: it == 1
+        extra["bregman_homogeneous"] = variant.endswith("homogeneous")
+    opts = base_options(formulation=form, linear_solver="direct", num_iter=2, tol_residual=2.0 ** -10, tol_increment=2.0 ** -10, tol_distance=2.0 ** -10, **extra)
+    nc = int(grid.num_cells)
+
+    def zero_mean(name):
+        f = ctx.array(name, (nc - 1,), sample=(-1.0, 1.0))
+        return np.concatenate([f, [-sum(f)]])
+    fa, fb = zero_mean("fa"), zero_mean("fb")
+    used, fresh = solver(method, grid, opts), solver(method, grid, opts)
+    if ctx.sym:
+        _abstract_mobility_and_cost(ctx, used)
+        _abstract_mobility_and_cost(ctx, fresh)
+    conf0 = _configuration(used)
+    with warnings.catch_warnings():
+        warnings.simplefilter("ignore")
+        used._solve(fa.copy())
+        conf1 = _configuration(used)
+        du, su, iu = used._solve(fb.copy())
+        df, sf, if_ = fresh._solve(fb.copy())
+    # frame: a call does not write the object's configuration (penalty parameter L, regularisation, modes, tolerances, formulation ...): scalar
+    # attributes are the same before and after - whatever they are afterwards would be the 'earlier call' of the next one
+    ctx.ensure("frame: the scalar configuration attributes of the solver object exist unchanged after a call", sorted(conf0) == sorted(conf1))
+    for k in sorted(conf0):
+        if k in conf1:
+            ctx.ensure(f"frame: attribute {k} is not written by a call", _same_value(conf0[k], conf1[k]))
+    for i in range(len(sf)):
+        ctx.ensure(f"solution entry {i}: re-used object == fresh object", eq(su[i], sf[i]))
+    ctx.ensure("distance: re-used object == fresh object", eq(du, df))
+    ctx.ensure("flags: converged and number of iterations agree", iu["converged"] == if_["converged"] and iu["number_iterations"] == if_["number_iterations"])
+
+
+@ob("C16.anderson_sym", cases=product_cases(depth=(1, 2, 3), restart=(None, 2, 3, 4), start=(0, 1)), mods=["darsia.utils.andersonacceleration"],
+    stubs={"sp.linalg.lstsq": STEP_STUBS["sp.linalg.lstsq"]}, funcs=["darsia.utils.andersonacceleration:AndersonAcceleration.__call__", "darsia.utils.andersonacceleration:AndersonAcceleration.reset"],
+    samples=(1, 2), budget={"timeout_ms": 20000, "decide_ms": 1500}, tol=1e-7,
+    assumes=["scipy.linalg.lstsq is a FUNCTION of (A, b): same argument terms => same coefficients; otherwise arbitrary"],
+    cite="an Anderson-accelerated iteration ... depends only on the arguments of that call ... not on earlier calls made ... with the same object",
+    note="relational, on the real AndersonAcceleration.__call__: an accelerator that served an earlier (symbolic) iteration and then a run starting at iteration 0 / at a restart boundary "
+         "returns, step by step, what a fresh accelerator returns for the same calls - all data, all depths / restarts incl. restart not a multiple of depth")
+def c16_anderson_sym(ctx, depth, restart, start):
+    if start and restart is None:
+        ctx.ensure("(no restart: a later start is not a reset point - nothing to state)", True)
+        return
+    n = 2
+    first = start * (restart or 0)
+    steps = (restart or 3) + 2
+    used = darsia.AndersonAcceleration(n, depth, restart)
+    fresh = darsia.AndersonAcceleration(n, depth, restart)
+    # earlier, unrelated iteration on the used object (runs up to the boundary the final run starts at)
+    for it in range(max(3, first)):
+        used(ctx.array(f"hg{it}", (n,), sample=(-1.0, 1.0)), ctx.array(f"hf{it}", (n,), sample=(-1.0, 1.0)), it)
+    for k in range(steps):
+        g, f = ctx.array(f"g{k}", (n,), sample=(-1.0, 1.0)), ctx.array(f"f{k}", (n,), sample=(-1.0, 1.0))
+        a = used(g.copy(), f.copy(), first + k)
+        b = fresh(g.copy(), f.copy(), first + k)
+        ctx.ensure(f"call {k} (iteration {first + k}): re-used accelerator == fresh accelerator", eq(np.asarray(a), np.asarray(b)))
